@@ -85,9 +85,13 @@ CLAIMS = {
              "ArgumentKey::operator== / mismatch() over all combinations of empty/equal/different short and long keys; "
              "ArgumentKey::startsWith() is proved to be exactly the non-empty-prefix predicate for all key texts from "
              "the meaning of the std::string operation its result is based on (compare of the whole other word "
-             "against the first n characters / find(...) == 0 / rfind( ..., 0) == 0; observation facts of Engine C).",
-        note="trusts clang AST/CFG and the documented meaning of std::string::compare/find/rfind; parsing of key "
-             "specification strings is not decided",
+             "against the first n characters / find(...) == 0 / rfind( ..., 0) == 0; observation facts of Engine C). "
+             "The key containers of a handler (normal and sub-group arguments) form one key space: every addition is "
+             "checked against the other container and a lookup never uses an abbreviation match of one container "
+             "without consulting the other. Key parsing: the string constructor of ArgumentKey removes exactly the "
+             "leading dashes (at most two) for every specification text (Engine C with symbolic characters).",
+        note="trusts clang AST/CFG and the documented meaning of std::string::compare/find/rfind/substr; the comma "
+             "form of key specifications is not decided",
         also=("engine B (boolshape.py)", "engine C (lin.py, bounds.py)"),
         technique="static analysis: CFG path rules + exhaustive truth table of the key algebra"),
     "C06": dict(
